@@ -842,8 +842,13 @@ def ga_vector_case(draw):
     family = draw(st.sampled_from(["integer", "binary"] if matrix_both else ["real", "integer", "binary"]))
     mo = draw(st.booleans())
     nobj = draw(st.sampled_from([2, 2, 3])) if mo else 1
-    return {"family": family, "mo": mo, "spec": draw(vector_spec(family, nobj, matrix_both)), "ngen": draw(st.integers(1, 6)),
+    case = {"family": family, "mo": mo, "spec": draw(vector_spec(family, nobj, matrix_both)), "ngen": draw(st.integers(1, 6)),
             "pop": draw(st.integers(4, 16)), "seed": draw(st.integers(0, 2 ** 31 - 1))}
+    # the box of an existing problem object re-declared through its public properties before it is optimised: per variable the
+    # quarters of the width cut off below and above (binary variables are never pinned, see vector_spec)
+    if family != "binary" and draw(st.sampled_from([False, True, False])):
+        case["rebound"] = [[draw(st.integers(0, 3)), draw(st.integers(0, 3))] for _ in range(case["spec"]["n"])]
+    return case
 
 
 # =====================================================================================================================
@@ -1092,6 +1097,22 @@ def check_ga_vector(case, ctx):
     opt = (mocls if case["mo"] else socls)(ngen=case["ngen"], pop_size=case["pop"])
     if _matrix_eval_excluded(ctx, spec):
         return
+    lo = numpy.array(spec["lo"], dtype=float)
+    hi = numpy.array(spec["hi"], dtype=float)
+    if case.get("rebound"):
+        cut = numpy.array(case["rebound"], dtype=float)
+        lo2 = lo + cut[:, 0] * (hi - lo) / 4.0
+        hi2 = numpy.maximum(lo2, hi - cut[:, 1] * (hi - lo) / 4.0)
+        if family == "integer":
+            lo2, hi2 = numpy.ceil(lo2), numpy.maximum(numpy.ceil(lo2), numpy.floor(hi2))
+        if not (spec["kind"] == "ebv" and not (hi2 > 0).any()):
+            dt = VEC[family][2]
+            prob.decn_space = numpy.stack([lo2, hi2]).astype(dt)
+            prob.decn_space_lower = lo2.astype(dt)
+            prob.decn_space_upper = hi2.astype(dt)
+            ctx.label("box_redeclared_before_optimisation")
+            ctx.label("box_redeclared_strictly_narrower", bool((lo2 > lo).any() or (hi2 < hi).any()))
+            lo, hi = lo2, hi2
     snap = snapshot(prob)
     soln = _run_ga(ctx, opt, prob, case["seed"], constrained, "ga")
     check_unchanged(ctx, prob, snap, "problem_modified")
@@ -1100,8 +1121,6 @@ def check_ga_vector(case, ctx):
     ns = check_solution_header(ctx, prob, soln, solcls, single=not case["mo"])
     ctx.label("front_size>=2", ns >= 2)
     X = numpy.asarray(soln.soln_decn)
-    lo = numpy.array(spec["lo"], dtype=float)
-    hi = numpy.array(spec["hi"], dtype=float)
     if family == "real":
         ctx.check(X.dtype.kind == "f", "vector.real_dtype", lambda: "dtype %s" % X.dtype)
     elif family == "integer":
@@ -1310,8 +1329,8 @@ SUBCHECKS = [
                               "algo=MemeticSteepest", "algo=MemeticStochastic", "algo=MemeticMutatorA", "algo=MemeticMutatorB")),
     SubCheck("ga_vector", check_ga_vector, ga_vector_case(), quick=110, thorough=1500, shards_quick=4,
              rule="generated (real|integer|binary) x (GA | NSGA2) x (harness linear(+quadratic) problem | real EBV problem) x "
-                  "bounds incl. pinned variables x constraints x objective unit x element-wise / population-wise evaluation; non-trivial = >= 2 variables and >= 3 distinct coefficients",
-             required_labels=("front_size>=2", "constrained", "family=real", "family=integer", "family=binary", "has_pinned_variable", "matrix_evaluation_of_direct_Problem_subclass",
+                  "bounds incl. pinned variables, for a third of the real / integer problems re-declared (narrowed) through the public properties of the built object x constraints x objective unit x element-wise / population-wise evaluation; non-trivial = >= 2 variables and >= 3 distinct coefficients",
+             required_labels=("front_size>=2", "constrained", "family=real", "family=integer", "family=binary", "has_pinned_variable", "box_redeclared_strictly_narrower", "matrix_evaluation_of_direct_Problem_subclass",
                               "matrix_evaluation_with_ineq_and_eq", "several_rows_of_both_kinds")),
     SubCheck("operators", check_operators, operator_case(), quick=300, thorough=4000, shards_quick=2,
              rule="generated parent populations (valid subsets as label rows; integer vectors within bounds) for each operator of "
